@@ -26,8 +26,16 @@ import time
 
 VERIF = os.path.dirname(os.path.dirname(os.path.abspath(__file__)))
 REPO = os.environ.get("VERIF_REPO", "/repo")
-LEAN_DIR = os.path.join(VERIF, "lean")
+LEAN_SRC = os.path.join(VERIF, "lean")
 OUT_DIR = os.path.join(VERIF, "out")
+# A run against another tree (VERIF_REPO=<scratch worktree>) works in a PRIVATE copy of the lake workspace (sources,
+# generated files and build products, ~200 MB, refreshed from lean/ at the start of the run): files generated from
+# that tree never touch lean/, and such runs can go on side by side with runs against /repo and with each other.
+if os.path.realpath(REPO) == "/repo":
+    LEAN_DIR = LEAN_SRC
+else:
+    import hashlib as _hl
+    LEAN_DIR = os.path.join(OUT_DIR, "lean_" + _hl.sha1(os.path.realpath(REPO).encode()).hexdigest()[:12])
 # evidence of runs against another tree (VERIF_REPO=<scratch worktree>: seeded changes, fix branches) never
 # overwrites the committed evidence of /repo itself
 EVIDENCE_DIR = os.path.join(VERIF, "evidence") if REPO == "/repo" else os.path.join(OUT_DIR, "evidence_other_tree")
@@ -93,15 +101,48 @@ def _strip_comments(src):
     return re.sub(r"--.*", "", src)
 
 
+def prepare_lean_dir():
+    """refresh the private lake workspace of a VERIF_REPO run from lean/ (no-op for /repo)"""
+    if LEAN_DIR == LEAN_SRC:
+        return
+    os.makedirs(LEAN_DIR, exist_ok=True)
+    main_lock = open(os.path.join(OUT_DIR, "lean.lock"), "w")
+    fcntl.flock(main_lock, fcntl.LOCK_EX)      # never copy a half-built workspace
+    try:
+        subprocess.run(["rsync", "-a", "--delete", "--exclude", ".audit", LEAN_SRC + "/", LEAN_DIR + "/"], check=True)
+    finally:
+        fcntl.flock(main_lock, fcntl.LOCK_UN)
+        main_lock.close()
+
+
+def drop_lean_dir():
+    if LEAN_DIR != LEAN_SRC and os.environ.get("VERIF_KEEP_LEAN") != "1":
+        shutil.rmtree(LEAN_DIR, ignore_errors=True)
+
+
 class LeanLock:
+    """Exclusive, re-entrant (per process) lock on the lake workspace.  check.py holds it from the regeneration of
+    Gen/*.lean through `lake build` and the axiom audit, so that two checks running side by side (possibly against
+    different trees, VERIF_REPO) never build or audit against each other's generated files."""
+    _depth = 0
+    _f = None
+
     def __enter__(self):
-        os.makedirs(OUT_DIR, exist_ok=True)
-        self.f = open(os.path.join(OUT_DIR, "lean.lock"), "w")
-        fcntl.flock(self.f, fcntl.LOCK_EX)
+        cls = LeanLock
+        if cls._depth == 0:
+            os.makedirs(OUT_DIR, exist_ok=True)
+            cls._f = open(os.path.join(OUT_DIR, "lean.lock" if LEAN_DIR == LEAN_SRC
+                                       else os.path.basename(LEAN_DIR) + ".lock"), "w")
+            fcntl.flock(cls._f, fcntl.LOCK_EX)
+        cls._depth += 1
 
     def __exit__(self, *a):
-        fcntl.flock(self.f, fcntl.LOCK_UN)
-        self.f.close()
+        cls = LeanLock
+        cls._depth -= 1
+        if cls._depth == 0:
+            fcntl.flock(cls._f, fcntl.LOCK_UN)
+            cls._f.close()
+            cls._f = None
 
 
 def lean_build(targets, timeout=1500):
